@@ -76,7 +76,7 @@ def main():
             rec["ran"] = [f"patch -p1 on a scratch copy of /repo HEAD", f"PYTHONPATH=<copy> python demo.py (exit {r1.returncode})", f"PYTHONPATH=/repo python demo.py (exit {r0.returncode})"]
             rec["detected_by"] = {}
             for c in checks:
-                env = dict(os.environ, VERIF_REPO=scratch, VERIF_OUT=out)
+                env = dict(os.environ, VERIF_REPO=scratch, VERIF_OUT=out, VERIF_NO_REGRESS="1")
                 t0 = time.time()
                 r = subprocess.run([os.path.join(VERIF, "check"), c, "--tier", "quick"], capture_output=True, text=True, env=env, cwd=VERIF)
                 lines = [l for l in r.stdout.splitlines() if not l.startswith("KNOWN-FINDING")]
